@@ -206,7 +206,8 @@ Section AdminCalls.
             else
               let d1 := if has (to_open_mode flag) OpenTruncate then [] else d in
               let at_ := 0%Z in
-              (with_heap s (upd (f_heap s) c (NFile d1 k i m)), inr (new_handle c vi (x :: name) at_ (to_open_mode flag)))
+              let m1 := if has (to_open_mode flag) OpenTruncate then drop_privs (v_user v) m else m in
+              (with_heap s (upd (f_heap s) c (NFile d1 k i m1)), inr (new_handle c vi (x :: name) at_ (to_open_mode flag)))
         | Some (NDir _ m) =>
             if has (to_open_mode flag) OpenCreateExcl then (s, inl (RFail EFileExists))
             else if has (to_open_mode flag) OpenWrite || has (to_open_mode flag) OpenCreate || has (to_open_mode flag) OpenTruncate then (s, inl (RFail EIsADirectory))
